@@ -101,7 +101,7 @@ class Sim {
   std::vector<uint8_t> snapshot() const;   // all storage blocks + direct data of every entry
   std::string diff_snapshot(const std::vector<uint8_t> &a, const std::vector<uint8_t> &b) const;
   int timers_used() const;      // walks the public CO_TMR lists
-  std::string tmr_check() const;  // pool conservation / acyclicity; empty string when consistent
+  std::string tmr_check(bool in_flight_ok = false) const;  // pool conservation / acyclicity; empty string when consistent
   size_t tx_in_call = 0;
 };
 
